@@ -111,6 +111,14 @@ Theorem C08_membership_literal : forall (env : spec_env) (a : expr) (es : list e
   (r = true <-> exists y, In y vs /\ spec_equal va y = Some true).
 Proof. exact C08_membership_literal_proof. Qed.
 
+(* numeric comparison also of strings that spell whole numbers (canonical decimal numerals), with each other and with
+   integers: '10' < '9' is 10 < 9 *)
+Theorem C08_numeral_strings : forall (env : spec_env) (a b : expr) (va vb : value) (x y : Z),
+  spec_eval env a = Ok va -> spec_eval env b = Ok vb -> spec_num va = Some x -> spec_num vb = Some y ->
+  spec_eval env (EBin BLt a b) = Ok (VBool (x <? y)%Z) /\ spec_eval env (EBin BLe a b) = Ok (VBool (x <=? y)%Z) /\
+  spec_eval env (EBin BGt a b) = Ok (VBool (y <? x)%Z) /\ spec_eval env (EBin BGe a b) = Ok (VBool (y <=? x)%Z).
+Proof. exact C08_numeral_strings_proof. Qed.
+
 (* the conditional operator evaluates exactly one branch *)
 Theorem C08_conditional_one_branch : forall (env : spec_env) (c : expr) (v : value),
   spec_eval env c = Ok v ->
@@ -199,6 +207,7 @@ Print Assumptions C08_precedence.
 Print Assumptions C08_short_circuit.
 Print Assumptions C08_membership.
 Print Assumptions C08_membership_literal.
+Print Assumptions C08_numeral_strings.
 Print Assumptions C08_conditional_one_branch.
 Print Assumptions C08_integer_arithmetic.
 Print Assumptions C08_integer_range.
